@@ -60,7 +60,14 @@ RULE = (
     'between the end centres and the outer edges are forced into half of '
     'the in-domain-only cases.  time2idx queries are the same instants '
     'given as naive, UTC-aware, or aware datetimes with offsets -06:00, '
-    '+05:30, +09:00, -11:00, +05:45, +01:00 (the instant decides the cell).  Comparison is exact (dyadic inputs) except at decision '
+
+    '+05:30, +09:00, -11:00, +05:45, +01:00 (the instant decides the cell).  One third of the datetime cases are '
+    'two-phase on ONE file object: after the first lookup the time '
+    'variable\'s units attribute (unit word hours/minutes/seconds and/or '
+    'reference date moved by 0 h .. 366 d) and values (and bounds values) '
+    'are rewritten in place - same instants or moved ones - and the lookup '
+    'is repeated; the second lookup is judged by the same oracle on the '
+    'axis as it is then.  Comparison is exact (dyadic inputs) except at decision '
     'points: a query within tol = 8 eps x (largest |coordinate| + (n+1) x '
     'widest cell) of a cell edge / within 2 tol of an exact tie may take '
     'either neighbour (label accepted-by-ulp-leniency counts how often that '
@@ -231,6 +238,13 @@ def cases(draw, tier='quick'):
         if qtz == 'offsets':
             qtz = [draw(st.sampled_from(TZ_OFFSETS)) for _ in idx]
         spec['qtz'] = qtz
+        if draw(st.integers(0, 2)) == 0:
+            # two-phase history on one file object (see check_case)
+            spec['phase2'] = dict(
+                tunit=draw(st.sampled_from(['hours', 'minutes', 'seconds'])),
+                shift_h=draw(st.sampled_from([0, 1, -5, 24, 24 * 59,
+                                              -24 * 366])),
+                instants=draw(st.sampled_from(['same', 'moved'])))
         return spec
     pool = _pool(c, edges)
     k = _nqueries(draw, 10)
@@ -309,7 +323,8 @@ def build(spec):
     v[:] = c
     if spec['kind'] == 'time':
         y, mo, d, h = spec['ref']
-        v.units = 'hours since %04d-%02d-%02d %02d:00:00' % (y, mo, d, h)
+        v.units = '%s since %04d-%02d-%02d %02d:00:00' % (
+            spec.get('tunit', 'hours'), y, mo, d, h)
     else:
         v.units = 'm'
     if spec['bkind'] != 'none':
@@ -329,9 +344,36 @@ def build(spec):
     return f, dim
 
 
-def call(spec):
-    """returns (exception or None, result, stderr text)"""
-    f, dim = build(spec)
+TUNIT_US = {'hours': 3600e6, 'minutes': 60e6, 'seconds': 1e6}
+
+
+def rebase(f, spec):
+    """rewrite the time axis of an existing file object in place: values
+    and units attribute of the time variable (and the values of its bounds
+    variable) as described by `spec`"""
+    code = {'f8': 'd', 'f4': 'f', 'i4': 'i'}[spec['cdtype']]
+    v = f.variables['time']
+    v[:] = np.array(spec['coord'], dtype=code)
+    y, mo, d, h = spec['ref']
+    v.units = '%s since %04d-%02d-%02d %02d:00:00' % (
+        spec.get('tunit', 'hours'), y, mo, d, h)
+    if spec['bkind'] != 'none':
+        bname = 'time' + spec['bname'] if spec['bname'] != 'attr' \
+            else 'cell_e'
+        e = np.array(spec['edges'], dtype='d' if code == 'i' else code)
+        bv = f.variables[bname]
+        if spec['bkind'] == 'edges':
+            bv[:] = e
+        else:
+            bv[:] = np.array([e[:-1], e[1:]]).T
+
+
+def call(spec, fobj=None):
+    """returns (exception or None, result, stderr text, file)"""
+    if fobj is None:
+        f, dim = build(spec)
+    else:
+        f, dim = fobj, 'time'
     q = np.array(spec['queries'], dtype='d')
     kw = dict(method=spec['method'], bounds=spec['bounds'],
               clean=spec['clean'])
@@ -340,7 +382,8 @@ def call(spec):
     if spec['kind'] == 'time':
         y, mo, d, h = spec['ref']
         ref = dt.datetime(y, mo, d, h, tzinfo=dt.timezone.utc)
-        times = [ref + dt.timedelta(microseconds=int(round(x * 3600e6)))
+        usf = TUNIT_US[spec.get('tunit', 'hours')]
+        times = [ref + dt.timedelta(microseconds=int(round(x * usf)))
                  for x in spec['queries']]
         # the same instants spelled as naive (= UTC by the library's
         # convention), UTC-aware, or aware with other UTC offsets
@@ -368,7 +411,7 @@ def call(spec):
                 exc, out = attempt(fn)
             finally:
                 sys.stderr = old
-    return exc, out, buf.getvalue()
+    return exc, out, buf.getvalue(), f
 
 
 # ------------------------------------------------------------------ oracle
@@ -392,7 +435,53 @@ def hhi_pre(c, spec, code):
     return _hull(c, spec, code)[1]
 
 
+def phase2_spec(spec):
+    """the single-phase spec of the re-based axis: other unit word and/or
+    other reference date; 'same' keeps the instants (numbers change),
+    'moved' keeps the numbers' structure and moves the instants"""
+    p2 = spec['phase2']
+    k = {'hours': 1, 'minutes': 60, 'seconds': 3600}[p2['tunit']]
+    sh = p2['shift_h']
+    ref = dt.datetime(*spec['ref']) + dt.timedelta(hours=sh)
+    off = -sh if p2['instants'] == 'same' else 0
+
+    def tr(vals):
+        return None if vals is None else [(x + off) * k for x in vals]
+    s2 = dict(spec)
+    s2.pop('phase2')
+    s2.update(coord=tr(spec['coord']), edges=tr(spec['edges']),
+              queries=tr(spec['queries']), tunit=p2['tunit'],
+              ref=[ref.year, ref.month, ref.day, ref.hour])
+    return s2
+
+
 def check_case(spec):
+    """one lookup on a fresh file; datetime cases may carry a second phase:
+    the SAME file object gets its time axis re-based (units attribute and
+    values rewritten) and is looked up again - the second lookup is judged
+    against the oracle of the axis as it is then"""
+    r = _check_single(spec)
+    if spec.get('phase2') and spec['kind'] == 'time' and not r.failures \
+            and getattr(r, 'fobj', None) is not None:
+        s2 = phase2_spec(spec)
+        rebase(r.fobj, s2)
+        r2 = _check_single(s2, fobj=r.fobj)
+        p2 = spec['phase2']
+        r.label('two-phase', 'phase2:unit=%s' % p2['tunit'],
+                'phase2:ref-%s' % ('moved' if p2['shift_h'] else 'same'),
+                'phase2:instants-' + p2['instants'])
+        if 'raised' in r2.labels:
+            r.label('phase2:raised')
+        for fl in r2.failures:
+            r.fail(fl.clause, 'second lookup after re-basing the time axis '
+                   'of the same file to %r: %s' % (
+                       r.fobj.variables['time'].units, fl.detail),
+                   where=fl.where, klass=fl.klass + '/phase2')
+    r.fobj = None
+    return r
+
+
+def _check_single(spec, fobj=None):
     r = Result()
     code = {'f8': 'd', 'f4': 'f', 'i4': 'i'}[spec['cdtype']]
     c = np.array(spec['coord'], dtype=code).astype('d')
@@ -497,7 +586,7 @@ def check_case(spec):
             r.label('end-half-cell-only-in-domain:' + spec['bounds'])
     r.nontrivial = bool(desc or not uniform or near)
 
-    exc, out, err = call(spec)
+    exc, out, err, r.fobj = call(spec, fobj)
 
     # ---- rejected / warned as requested
     if exc is not None:
